@@ -1,4 +1,5 @@
 import Op2Proofs.SliceNesting
+import Op2Proofs.SysLemmas
 /-!
 # C13 — slices are confined, independent, and equivalent across stream backends
 -/
@@ -102,5 +103,51 @@ theorem C13_file_slice_equals_nested (n k : Nat) (s : SliceN (n + 1)) (t : Slice
     runWith (Slice.step (wrappedN n)) s ops = runWith (Slice.step (wrappedN k)) t ops := by
   rw [slice_refines_hist (wrappedN_ok n) ops s hs ha, slice_refines_hist (wrappedN_ok k) ops t ht ha]
   exact congrArg (fun x => runWith RSpec.step x ops) heq
+
+/-! ## independence: several live objects under every interleaving
+
+`Sys` (`Op2Model/StreamSys.lean`) is a program's collection of live readers — a memory or file reader, slices of it,
+slices of slices, copies — with requests addressed to any of them in any order (`multi …` commands of the
+correspondence run execute exactly `Sys.step`).  The model holds objects as values; that the C++ objects share no
+hidden cursor is what the correspondence run checks, and these theorems say what then follows for *every* history. -/
+
+/-- a request to object `i` leaves every other live object exactly as it was (position, window, everything) -/
+theorem C13_interleaving_frame (objs : Sys) (i j : Nat) (o : OOp) (hij : j ≠ i) (hj : j < objs.length) :
+    (Sys.step objs i o).2[j]? = objs[j]? := Sys.step_frame objs i j o hij hj
+
+/-- a refused slice creation leaves the parent — and every other object — untouched, and creates nothing -/
+theorem C13_refused_creation_changes_nothing (objs : Sys) (i : Nat) (d : DOp)
+    (h : (Sys.step objs i (.derive d)).1 = some .failed) : (Sys.step objs i (.derive d)).2 = objs :=
+  Sys.step_failed objs i d h
+
+/-- **every interleaving**: what an object answers (bytes, results, the slices created from it) and where it ends up
+    is what it would have answered and where it would have ended had its own requests been applied to it alone -/
+theorem C13_interleaving_independent (h : List (Nat × OOp)) (objs : Sys) (j : Nat) (r : Rd) (hr : objs[j]? = some r) :
+    projOuts j (Sys.run objs h).1 = (runObj r (projOps j h)).1.map some ∧
+    (Sys.run objs h).2[j]? = some (runObj r (projOps j h)).2 := Sys.run_projection h objs j r hr
+
+/-- … also for an object created in the middle of the history (a slice or copy made by `h1`), from then on -/
+theorem C13_interleaving_independent_from_creation (h1 h2 : List (Nat × OOp)) (objs : Sys) (j : Nat) (r : Rd)
+    (hr : (Sys.run objs h1).2[j]? = some r) :
+    projOuts j (Sys.run (Sys.run objs h1).2 h2).1 = (runObj r (projOps j h2)).1.map some ∧
+    (Sys.run objs (h1 ++ h2)).2[j]? = some (runObj r (projOps j h2)).2 := by
+  rw [Sys.run_append]
+  exact Sys.run_projection h2 _ j r hr
+
+/-- two histories that agree on the requests addressed to `j` are indistinguishable to `j` -/
+theorem C13_interleaving_schedule_irrelevant (h h' : List (Nat × OOp)) (objs : Sys) (j : Nat) (hj : j < objs.length)
+    (hp : projOps j h = projOps j h') :
+    projOuts j (Sys.run objs h).1 = projOuts j (Sys.run objs h').1 ∧ (Sys.run objs h).2[j]? = (Sys.run objs h').2[j]? := by
+  obtain ⟨a1, a2⟩ := Sys.run_projection h objs j objs[j] (List.getElem?_eq_getElem hj)
+  obtain ⟨b1, b2⟩ := Sys.run_projection h' objs j objs[j] (List.getElem?_eq_getElem hj)
+  rw [a1, a2, b1, b2, hp]; exact ⟨rfl, rfl⟩
+
+/-- non-vacuity: a memory reader, a slice of it and a slice-here of it, interleaved — the parent's own answers are
+    those of its own three requests -/
+example : let objs : Sys := [Rd.mem { data := [10, 11, 12, 13, 14, 15], pos := 0 }]
+    let h : List (Nat × OOp) := [(0, .derive (.slice 1 4)), (1, .op (.read 2)), (0, .op (.read 1)), (0, .derive (.here 2)),
+                                 (2, .op (.read 2)), (1, .op (.seek 0)), (0, .op (.read 4)), (0, .op (.read 3))]
+    ((Sys.run objs h).2.map fun o => (o.pos, o.len)) = [(6, 6), (0, 4), (2, 2)] ∧
+    (projOuts 0 (Sys.run objs h).1).length = 5 := by decide
 
 end Op2.Props.C13
